@@ -19,7 +19,9 @@ type rule3 struct {
 	M    *string
 }
 
-func triple(k, v, m string) string { return "(" + gal.Str(k) + ", " + gal.Str(v) + ", " + gal.Str(m) + ")" }
+func triple(k, v, m string) string {
+	return "(" + gal.Str(k) + ", " + gal.Str(v) + ", " + gal.Str(m) + ")"
+}
 
 // a value in the property's alphabet: ASCII, CJK, '=', '~', '/', '(', ')', quoted segments with commas; never '|'
 func c14Value(r *gal.Rng, key string) string {
